@@ -5,12 +5,15 @@ package main
 // judged by the monitor of spec/Dispatch.tla.
 
 import (
+	"bufio"
 	"bytes"
 	"compress/gzip"
 	"compress/zlib"
+	"errors"
 	"fmt"
 	"io"
 	"math/rand"
+	"net"
 	"net/http"
 	"net/http/httptest"
 	"strings"
@@ -48,6 +51,8 @@ type chainCase struct {
 	PanicVal  string `json:"panicVal"`  // "" (a string) | abort (http.ErrAbortHandler) | err | int : the value panics are raised with
 	Copy      bool   `json:"copy"`      // targets stream with io.Copy into the writer below the Response (io.ReaderFrom fast paths)
 	RouteFlip bool   `json:"routeFlip"` // a copy of the OTHER route (from WebService.Routes()) gets the opposite encoding setting at run time
+	Uneven    bool   `json:"uneven"`    // small writes directly followed by large ones
+	HijackNo  bool   `json:"hijackNo"`  // the target tries Hijack first; the writer below refuses; the target answers normally
 	Nested    bool   `json:"nested"`    // entry S: the container is mounted with HandleWithFilter("/") in an outer container with the same encoding switch and a filter
 	ReadPanic bool   `json:"readPanic"` // the request carries a gzip entity; the target reads it and the entity's own UnmarshalJSON panics
 }
@@ -419,8 +424,40 @@ func payloadBytes(n int) []byte {
 
 var copyMode bool
 
+// unevenMode: writes of a few bytes directly followed by writes of several hundred (what templates and encoders do)
+// hijackRefusedMode: the target first tries to take the connection over; the underlying writer refuses, and the
+// target answers normally
+var unevenMode, hijackRefusedMode bool
+
+type refusingHijacker struct{ http.ResponseWriter }
+
+func (refusingHijacker) Hijack() (net.Conn, *bufio.ReadWriter, error) {
+	return nil, nil, errors.New("connection cannot be taken over")
+}
+
 func writeChunks(l *reqLog, w io.Writer, payload, chunks int) {
 	data := payloadBytes(payload)
+	if hijackRefusedMode {
+		if resp, ok := w.(*restful.Response); ok {
+			if conn, _, err := resp.Hijack(); err == nil && conn != nil {
+				conn.Close()
+			}
+		}
+	}
+	if unevenMode && !copyMode && len(data) > 8 {
+		sizes := []int{5, 700, 3, 511, 512, 1}
+		for i, off := 0, 0; off < len(data); i++ {
+			end := off + sizes[i%len(sizes)]
+			if end > len(data) {
+				end = len(data)
+			}
+			l.wcalls++
+			l.written.Write(data[off:end])
+			w.Write(data[off:end])
+			off = end
+		}
+		return
+	}
 	if copyMode {
 		if resp, ok := w.(*restful.Response); ok {
 			w = resp.ResponseWriter
@@ -748,6 +785,7 @@ func runChainCase(tw *traceWriter, cs chainCase, rid *int) {
 			condHdr = "1"
 		}
 		copyMode = cs.Copy
+		unevenMode, hijackRefusedMode = cs.Uneven, cs.HijackNo && cs.Entry != "NET" // (a real connection can be taken over)
 		hdrs := [][2]string{{"X-Rid", id}, {"Accept-Encoding", cs.AE}, {"X-Alt", altHdr}, {"X-Cond-Panic", condHdr}, {"Origin", cs.Origin}}
 		var reqBody []byte
 		if cs.ReadPanic && routedLike && cs.Entry != "NET" {
@@ -765,6 +803,9 @@ func runChainCase(tw *traceWriter, cs chainCase, rid *int) {
 		var out http.ResponseWriter = rec
 		if cs.Copy {
 			out = readFromRecorder{rec}
+		}
+		if cs.HijackNo && cs.Entry != "NET" {
+			out = refusingHijacker{out}
 		}
 		var fw *countingWriter
 		if cs.FailAt > 0 {
@@ -1089,6 +1130,11 @@ func randomChainCase(r *rand.Rand, mode string) chainCase {
 		cs.FlipAfter = r.Intn(3) == 0
 	}
 	if mode == "enc" {
+		cs.Uneven = r.Intn(4) == 0
+		if cs.Uneven && cs.Payload < 2000 {
+			cs.Payload = 2000 + r.Intn(3000)
+		}
+		cs.HijackNo = r.Intn(5) == 0
 		cs.Copy = r.Intn(4) == 0
 		cs.RouteFlip = cs.REnc != "unset" && r.Intn(2) == 0
 		cs.FlipAfter = r.Intn(3) == 0
